@@ -6,5 +6,7 @@ export GOFLAGS=-mod=mod GOPROXY=off GOSUMDB=off GOTOOLCHAIN=local
 mkdir -p .cache/go-build .build evidence replays
 # building through ./check warms exactly the cache the checks use
 VERIF_BUDGET_S=5 ./check C22 --tier quick >/dev/null 2>&1 || true
+# C25 also uses a second binary built with -race: build it once here so that the first real run finds a warm cache
+VERIF_BUDGET_S=1 VERIF_OUT=$(mktemp -d) ./check C25 --tier quick >/dev/null 2>&1 || true
 test -x .build/*/vmc
 echo "setup ok"
